@@ -91,7 +91,7 @@ def _gate(token: str):
     go = os.path.join(gate, "go", h)
     free = os.path.join(gate, "free")  # when present nothing blocks (uncontrolled runs)
     while not (os.path.exists(go) or os.path.exists(free)):
-        time.sleep(0.0005)
+        time.sleep(0.002)
     if os.path.exists(os.path.join(gate, "fail", h)):
         log(f"E\t{token}\tfail")
         raise RuntimeError(f"injected failure in {token}")
@@ -109,6 +109,13 @@ def WT1(a: ty.Any) -> ty.Any:
 @python.define
 def WT2(a: ty.Any, b: ty.Any) -> ty.Any:
     out = f"g({_fmt(a)},{_fmt(b)})"
+    _gate(out)
+    return out
+
+
+@python.define
+def WT3(a: ty.Any, b: ty.Any, c: ty.Any) -> ty.Any:
+    out = f"h({_fmt(a)},{_fmt(b)},{_fmt(c)})"
     _gate(out)
     return out
 
